@@ -35,6 +35,7 @@ import (
 	"runtime"
 	"strings"
 	"sync"
+	"sync/atomic"
 	"testing"
 	"time"
 
@@ -246,6 +247,7 @@ type ddReq struct {
 	msg    *dns.Msg
 	status string // idle running join parked woke lead down ret
 	phase  string // goroutine-local: last harness point passed (parked | errchk)
+	goid   atomic.Uint64
 	resume chan struct{}
 	cmd    chan ddOutcome
 
@@ -530,6 +532,17 @@ func (r *ddRun) settle(stepped *ddReq, resolve func()) error {
 		case <-deadline:
 			for _, id := range r.order {
 				q := r.reqs[id]
+				if q.status == "running" && blockedInServeDNS(q) {
+					// blocked in the dedup wait without ever consulting its context
+					q.ctx.fire(context.DeadlineExceeded)
+					select {
+					case ev := <-r.events:
+						r.apply(ev)
+					case <-time.After(3 * time.Second):
+						r.violate("InTime", fmt.Sprintf("request %d is blocked inside Cache.ServeDNS (dedup wait) and does not react to its request deadline: it can only be answered when the leader finishes", id))
+						return nil
+					}
+				}
 				if q.status == "parked" && q.gen != nil && r.shouldWake(q) {
 					r.violate("InTime", fmt.Sprintf("request %d is parked in the dedup wait although its context is finished or its generation is done; it did not wake within 15 s (wedged)", id))
 					return nil
@@ -538,6 +551,39 @@ func (r *ddRun) settle(stepped *ddReq, resolve func()) error {
 			return fmt.Errorf("goroutines did not settle: %s", pending)
 		}
 	}
+}
+
+func curGoid() uint64 {
+	var buf [64]byte
+	n := runtime.Stack(buf[:], false)
+	var id uint64
+	fmt.Sscanf(string(buf[:n]), "goroutine %d ", &id)
+	return id
+}
+
+// blockedInServeDNS reports whether the request's goroutine is blocked on a
+// channel inside Cache.ServeDNS itself (not in the harness, not downstream).
+func blockedInServeDNS(q *ddReq) bool {
+	id := q.goid.Load()
+	if id == 0 {
+		return false
+	}
+	buf := make([]byte, 1<<20)
+	buf = buf[:runtime.Stack(buf, true)]
+	head := fmt.Sprintf("goroutine %d [", id)
+	for _, blk := range strings.Split(string(buf), "\n\n") {
+		if !strings.HasPrefix(blk, head) {
+			continue
+		}
+		first, rest, _ := strings.Cut(blk, "\n")
+		if !strings.Contains(first, "chan receive") && !strings.Contains(first, "select") {
+			return false
+		}
+		// the innermost frame must be ServeDNS
+		fn, _, _ := strings.Cut(rest, "\n")
+		return strings.Contains(fn, "cache.(*Cache).ServeDNS")
+	}
+	return false
 }
 
 func (r *ddRun) release(q *ddReq) {
@@ -737,6 +783,7 @@ func (r *ddRun) stepFirstLookup(q *ddReq) (bool, error) {
 	q.firedAtRel = false
 	r.willCreateShort()
 	go func() {
+		q.goid.Store(curGoid())
 		q.ch.Next(q.ctx)
 		r.notify(q, "ret")
 	}()
